@@ -327,9 +327,18 @@ def stream_accel(rng, tier):
                 ops.append(rand_request(rng))
             ops.append('data')
         hdr = 'low=%s pos=%s neg=%s' % (rand_low(rng), hexs(sample6(rng, True)), hexs(sample6(rng, False)))
-        out.append(case('a%d' % n, rng.choice(['i2c', 'spi']), ops, hdr))
+        out.append(case('a%d' % n, ctor_for(rng, ops), ops, hdr))
         n += 1
     return out
+
+
+def ctor_for(rng, ops):
+    """histories with injected faults run over I2C: over SPI a fault index may hit a chip-select
+    pin operation, after which the chip-select line itself is stuck (out of the properties' scope,
+    exercised by C15 only)"""
+    if any('!' in o for o in ops):
+        return 'i2c'
+    return rng.choice(['i2c', 'spi'])
 
 
 def enc12(v):
@@ -599,7 +608,7 @@ def stream_reset(rng, tier):
                 op += ' !%d' % rng.randrange(8)
             hist.append(op)
         follow = [rand_op(rng) for _ in range(rng.randint(2, 8))]
-        ctor = rng.choice(['i2c', 'spi'])
+        ctor = ctor_for(rng, hist)
         hdr = 'low=%s pos=%s neg=%s fifo=%s' % (rand_low(rng), hexs(sample6(rng, True)), hexs(sample6(rng, False)),
                                               hexs([rng.randrange(256) for _ in range(20)]))
         out.append(case('r%da' % i, ctor, hist + ['reset'] + follow, hdr))
@@ -692,7 +701,7 @@ def stream_fifo_guard(rng, tier):
             ops.append('rfifo:%d' % rng.choice([0, 1, 2, 15, 33]))
         hdr = 'pos=%s neg=%s fifo=%s' % (hexs(sample6(rng, True)), hexs(sample6(rng, False)),
                                          hexs([rng.randrange(256) for _ in range(33)]))
-        out.append(case('p%d' % i, rng.choice(['i2c', 'spi']), ops, hdr))
+        out.append(case('p%d' % i, ctor_for(rng, ops), ops, hdr))
     return out
 
 
@@ -701,7 +710,13 @@ def count_raw(journal_field):
     return len([t for t in journal_field.split(' ') if t and not (t[0] == 'd' and t[1:].isdigit())])
 
 
-def stream_faults_from(base_cases, base_obs, rng, tier, recover=True):
+def raw_kinds(journal_field):
+    """'p' (pin) / 'd' (data) for every fallible raw operation of a journal string"""
+    return ['p' if t.rstrip('!') in ('L', 'H') else 'd'
+            for t in journal_field.split(' ') if t and not (t[0] == 'd' and t[1:].isdigit())]
+
+
+def stream_faults_from(base_cases, base_obs, rng, tier, recover=True, data_only=False):
     """C15 / C16 / C20: for the last operation of every base case, one case per raw-operation
     index k failing, followed by recovery requests.  `base_obs` are fault-free observations
     (they tell how many raw operations the operation performs)."""
@@ -715,7 +730,10 @@ def stream_faults_from(base_cases, base_obs, rng, tier, recover=True):
         last = secs[-1]
         nraw = count_raw(obs[-1].split(';')[1])
         ks = list(range(nraw))
-        if tier == 'quick' and nraw > 12:
+        if data_only:
+            kinds = raw_kinds(obs[-1].split(';')[1])
+            ks = [k for k in ks if kinds[k] == 'd']
+        if tier == 'quick' and len(ks) > 12:
             ks = sorted(rng.sample(ks, 12))
         for k in ks:
             head = secs[0].split(' ')
